@@ -311,12 +311,14 @@ Proof.
       * unfold needs. simpl. destruct (binds env); isolve.
   - (* apply *)
     intros vf va r l H. simpl in H. destruct vf; try (inv H; apply good_nil_err).
-    + destruct arity as [|[|n]]; inv H.
-      * apply good_intro; [simpl; rewrite app_nil_r; isolve | | intros v Hv; inv Hv; simpl; isolve].
+    + destruct arity as [|[|n]].
+      * destruct va; inv H; try apply good_nil_err.
+        apply good_intro; [simpl; rewrite app_nil_r; isolve | | intros v Hv; inv Hv; simpl; isolve].
         intros e He; simpl in He; destruct He as [He|[]]; subst; reflexivity.
-      * apply good_intro; [simpl; rewrite app_nil_r; isolve | | intros v Hv; inv Hv; simpl; isolve].
+      * destruct va; inv H; try apply good_nil_err.
+        apply good_intro; [simpl; rewrite app_nil_r; isolve | | intros v Hv; inv Hv; simpl; isolve].
         intros e He; simpl in He; destruct He as [He|[]]; subst; reflexivity.
-      * apply good_nil_val. simpl. isolve.
+      * inv H. apply good_nil_val. simpl. isolve.
     + destruct va; try (inv H; apply good_nil_err). simpl in H.
       assert (Hb : binds (VTupCons pkg (w_safe w) VTupNil) = true)
         by (unfold binds; simpl; rewrite String.eqb_refl; reflexivity).
